@@ -133,7 +133,19 @@ func injectSpies(t *rapid.T, set TSet) (TSet, map[string]int) {
 			return e
 		}
 		sites[where]++
-		switch {
+		switch absorb := rapid.IntRange(0, 11).Draw(t, "absorbing"); {
+		// the callback sits where a lenient construct evaluates it: the operand of `is defined`,
+		// the subject of default(). Its failure is still a failure of the render. (Both arms of
+		// the conditional are e, so the value of the site is unchanged.)
+		case absorb == 0:
+			sites["operand-of-is-defined"]++
+			return Cond(Test(Call("spy", e), "defined", false), e, e)
+		case absorb == 1:
+			sites["operand-of-is-defined"]++
+			return Cond(Test(Filt(e, "spyf"), "defined", false), e, e)
+		case absorb == 2:
+			sites["subject-of-default"]++
+			return Filt(Call("spy", e), "default", e)
 		case where == "cond" && rapid.IntRange(0, 2).Draw(t, "astest") == 0:
 			return Test(e, "spyt", false)
 		case rapid.Bool().Draw(t, "asfilter"):
@@ -228,7 +240,7 @@ func checkC17N(c C17Case) (int, error) {
 	return limit, nil
 }
 
-const c17Rule = "template sets from five structural generators (control flow, inheritance chains with parent(), include chains with all options, macro libraries through all five call forms, apply/spaceless bodies) with spies (function, filter, test) injected at random expression positions: print, if/elseif conditions, for sequences, set values, include names and with-values, macro arguments and defaults, extends/import names, apply arguments; for every spy invocation k of the fault-free render (all when N <= 64, else 64 evenly spaced) the render is repeated with invocation k failing, through Render, RenderTo and debug mode; non-trivial = the failing invocation lies below at least one structural node (loop, condition, block, include, macro, parent template); distinct by (source set, context)"
+const c17Rule = "template sets from five structural generators (control flow, inheritance chains with parent(), include chains with all options, macro libraries through all five call forms, apply/spaceless bodies) with spies (function, filter, test; also as the operand of `is defined` and as the subject of default()) injected at random expression positions: print, if/elseif conditions, for sequences, set values, include names and with-values, macro arguments and defaults, extends/import names, apply arguments; for every spy invocation k of the fault-free render (all when N <= 64, else 64 evenly spaced) the render is repeated with invocation k failing, through Render, RenderTo and debug mode; non-trivial = the failing invocation lies below at least one structural node (loop, condition, block, include, macro, parent template); distinct by (source set, context)"
 
 func TestC17Faults(t *testing.T) {
 	r := NewRec(t, "C17", c17Rule)
